@@ -55,7 +55,9 @@ def main():
         os.unlink(os.path.join(wt, '_demo.py'))
         for pid in ids:
             t0 = time.time()
-            env = dict(os.environ, VERIF_REPO=wt)
+            # evidence of runs against a changed tree must not overwrite the evidence of the unchanged tree
+            os.makedirs('/tmp/seed-evidence', exist_ok=True)
+            env = dict(os.environ, VERIF_REPO=wt, VERIF_EVIDENCE_DIR='/tmp/seed-evidence')
             r = sh(['/verif/bin/check', pid, '--tier', tier], env=env, timeout=7200)
             lines = r.stdout.splitlines()
             out['checks'][pid] = {
